@@ -53,3 +53,29 @@ def inventory(prog, scope_ids):
                 if c:
                     inv[(fid, c[0], c[1])].append((body, b))
     return inv
+
+
+def root_fn(fid):
+    """the function a closure is written in (`f::{closure#0}::{closure#1}` -> `f`)"""
+    import re
+    return re.sub(r"(::\{closure#\d+\})+$", "", fid)
+
+
+def fold_closures(inv):
+    """inventory keyed by the function a site is written in: whether a panicking construct sits in the body of `f` or in
+    a closure inside `f` is a matter of spelling (`for` loop / iterator adaptor), not of reachability"""
+    out = defaultdict(list)
+    for (fid, cls, kind), sites in inv.items():
+        out[(root_fn(fid), cls, kind)].extend(sites)
+    return out
+
+
+def fold_table(table):
+    out = {}
+    for (fid, cls, kind), (cnt, why) in table.items():
+        k = (root_fn(fid), cls, kind)
+        if k in out:
+            out[k] = (out[k][0] + cnt, out[k][1] + "; " + why)
+        else:
+            out[k] = (cnt, why)
+    return out
